@@ -156,11 +156,13 @@ func VerifH_C13_OPN() {
 	uri := uris[vfConcrete(vfInt("uri", 0, 2))]
 	key := vfRSAKey("peer", 256)
 	var cert []byte
-	switch vfConcrete(vfInt("cert", 0, 2)) {
+	switch vfConcrete(vfInt("cert", 0, 3)) {
 	case 0:
 		cert = vfCert("peer", key)
 	case 1:
 		cert = vfBytes("badcert", 3)
+	case 2:
+		cert = vfCertNonRSA("peer") // well-formed certificate, but not an RSA key
 	}
 	thumb := vfBytes("thumb", vfConcrete(vfInt("thumbLen", 0, 1))*20)
 	hdr, _ := NewAsymmetricSecurityHeader(uri, cert, thumb).Encode()
